@@ -13,7 +13,8 @@ MODELS = {
     'types': dict(cells={'A1': 1, 'A2': 2.5, 'A3': 'text', 'A4': 'naïve café 日本', 'A5': True, 'A6': False, 'A7': 1e300, 'A8': 5e-324,
                          'A9': -0.0, 'A10': '', 'A11': 'say "hi"', 'B1': '=A1+A2', 'B2': '=A3&A4', 'B3': '=1/0', 'B4': '=NA()',
                          'B5': '=IF(A5,A7,A8)', 'B6': '=SUM(A1:A2)', 'B7': '=LEN(A4)'}, names={'first': 'Sheet1!$A$1', 'nums': 'Sheet1!$A$1:$A$2'}),
-    'dates': dict(cells={'A1': ('date', 2024, 2, 29), 'A2': ('date', 1900, 3, 1), 'B1': '=YEAR(A1)', 'B2': '=A1-A2', 'B3': '=DATE(2020,1,31)'}, names={}),
+    'dates': dict(cells={'A1': ('date', 2024, 2, 29), 'A2': ('date', 1900, 3, 1), 'A3': ('date', 2021, 3, 4, 5, 6, 7, 250000),
+                         'A4': ('date', 1999, 12, 31, 23, 59, 59), 'B4': '=A3', 'B1': '=YEAR(A1)', 'B2': '=A1-A2', 'B3': '=DATE(2020,1,31)'}, names={}),
     'sheets': dict(cells={'Sheet1!A1': 4, 'Data!A1': 10, 'My Sheet!A1': 7, 'Data!B1': '=A1*2', 'Sheet1!B1': "=Data!B1+'My Sheet'!A1",
                           'Sheet1!C1': '=SUM(Data!A1:B1)', 'My Sheet!B1': '=Sheet1!B1&"x"'}, names={'total': 'Sheet1!$C$1'}),
 }
